@@ -430,6 +430,45 @@ theorem C04_pages_scan_error (v W : Nat) (p : RowsPage) (rest : List RowsPage) (
     (step1_error v true r msg e hw hlen hb hu) 1, pdrain_error]
   simp
 
+open Paged in
+/-- ALL PAGES OF A QUERY THROUGH THE SCANNER (`sc := iter.Scanner(); for sc.Next() { sc.Scan(dests...) }`): as
+    C04_pages_scan, for pages that also have the same NUMBER of columns `C` (iterScanner keeps the cell buffer it
+    made from the first page): every row of every page is delivered with exactly its cells, each page typed by its
+    own metadata; then Next() returns false on the last page's iterator, without error, every answer consumed. -/
+theorem C04_pages_scanner (v W C : Nat) (p : RowsPage) (rest : List RowsPage)
+    (hp : PageOkS v W C p) (hall : ∀ x ∈ rest, PageOkS v W C x) (hch : chained p rest)
+    (hlast : (lastPage p rest).m.paging = none) :
+    ∃ s1 : PScanner,
+      pdrainS v (List.replicate W true) (rowCount (p :: rest) + 1) (rest.map (fun x => encodeFrame v x.r)) (pageQ p).scanner
+        = some ((p :: rest).flatMap pageCalls, s1, []) ∧
+      s1.q = atEnd (pageQ (lastPage p rest)) ∧ s1.q.err = none := by
+  obtain ⟨s1, hq, _, h⟩ := pagesS_drain v W C rest p hp hall hch 0 [] (pageQ p).scanner rfl
+    (by have := congrArg List.length (colsMatch_view p.m.cols); simp [QIter.scanner, pageQ, qOf, iterOf, viewMeta] at this ⊢; rw [this, hp.2])
+  refine ⟨s1, ?_, hq, by rw [hq]; rfl⟩
+  simp only [List.append_nil] at h
+  rw [h, pdrainS_last v _ s1 (by rw [hq]; rfl) (by rw [hq]; simp [atEnd]) (by rw [hq]; simp [atEnd, pageQ, qOf, hlast]) [] 0]
+  simp
+
+open Paged in
+/-- the same when the fetch after the last page is answered with an ERROR (not UNPREPARED): every row of every page,
+    then Next() false and Err() = exactly that error -/
+theorem C04_pages_scanner_error (v W C : Nat) (p : RowsPage) (rest : List RowsPage) (r : LResp) (msg : FrameRead.Bytes) (e : ErrBody)
+    (hp : PageOkS v W C p) (hall : ∀ x ∈ rest, PageOkS v W C x) (hch : chained p rest)
+    (hlast : (lastPage p rest).m.paging.isSome = true)
+    (hw : wf v r = true) (hlen : (encodeBody v r).length ≤ Compress.maxFrameSize)
+    (hb : r.body = .error msg e) (hu : ∀ id, e ≠ .unprepared id) :
+    ∃ s1 : PScanner,
+      pdrainS v (List.replicate W true) (rowCount (p :: rest) + 2)
+          (rest.map (fun x => encodeFrame v x.r) ++ [encodeFrame v r]) (pageQ p).scanner
+        = some ((p :: rest).flatMap pageCalls, s1, []) ∧
+      s1.q = qErr r msg e := by
+  obtain ⟨s1, hq, _, h⟩ := pagesS_drain v W C rest p hp hall hch 1 [encodeFrame v r] (pageQ p).scanner rfl
+    (by have := congrArg List.length (colsMatch_view p.m.cols); simp [QIter.scanner, pageQ, qOf, iterOf, viewMeta] at this ⊢; rw [this, hp.2])
+  refine ⟨{ s1 with q := qErr r msg e }, ?_, rfl⟩
+  rw [h, pdrainS_switch v _ s1 (by rw [hq]; rfl) (by rw [hq]; simp [atEnd]) (by rw [hq]; simpa [atEnd, pageQ, qOf] using hlast) _ [] _
+    (step1_error v true r msg e hw hlen hb hu) 1, pdrainS_error v _ _ r msg e rfl]
+  simp
+
 /-! ## 5. the witnesses of the repaired findings (conformance, kernel-checked; each is also a replay
        input), the remaining open finding KF-C04-3, regressions about the OLD definitions -/
 
@@ -911,5 +950,10 @@ example : Paged.pdrain 4 [true] 4 [encodeFrame 4 exUnavailable] (pageQ exPage1)
 /-- C04_query_view's hypotheses: the same responses as first answers -/
 example : Paged.execute 4 true [encodeFrame 4 exUnavailable] = some (qErr exUnavailable b!"no" (.unavailable 1 2 1), []) :=
   (C04_query_view 4 exUnavailable [] (by decide) (by decide)).2.1 _ _ rfl (by intro id h; cases h)
+
+/-- the Scanner's hypotheses on the same two pages (one column each) -/
+example : ∃ s1 : Paged.PScanner, Paged.pdrainS 4 [true] 4 [encodeFrame 4 exPage2.r] (pageQ exPage1).scanner
+    = some ([exPage1, exPage2].flatMap pageCalls, s1, []) ∧ s1.q = atEnd (pageQ exPage2) ∧ s1.q.err = none :=
+  C04_pages_scanner 4 1 1 exPage1 [exPage2] ⟨exPage1_ok, rfl⟩ (by intro x hx; simp at hx; subst hx; exact ⟨exPage2_ok, rfl⟩) ⟨rfl, trivial⟩ rfl
 
 end C04
